@@ -41,7 +41,7 @@ func (c14) Budget(tier string) core.Budget {
 	if tier == "thorough" {
 		return core.Budget{Runs: 200000, WallCap: 20 * time.Minute}
 	}
-	return core.Budget{Runs: 3000, WallCap: 45 * time.Second}
+	return core.Budget{Runs: 5000, WallCap: 60 * time.Second}
 }
 
 type vkind struct {
